@@ -441,6 +441,11 @@ class Machine:
         if re.search(r"f64::<impl f64>::min$", callee):
             a, b = argv
             return If(fpIsNaN(a), b, If(fpIsNaN(b), a, fpMin(a, b)))
+        if re.search(r"<impl (usize|u16|u32|u64)>::div_ceil$", callee):
+            a, b = argv
+            self.panics.append((simplify(And(pc, b == 0)), "attempt to divide by zero (div_ceil)"))
+            q = UDiv(a, b)
+            return If(URem(a, b) != 0, q + 1, q)
         if re.search(r"<impl f64>::abs$", callee):
             return fpAbs(argv[0])
         if re.search(r"<impl f64>::exp$", callee):
